@@ -7,6 +7,7 @@ import (
 	"path/filepath"
 	"sort"
 	"sync"
+	"sync/atomic"
 	"time"
 
 	"github.com/Flowpack/prunner"
@@ -31,11 +32,12 @@ const (
 	CvWaitingPendingDelay                               // job waits with a pending start delay
 	CvWaitingExpiredDelayBehindBusy                     // delay expired, but the slot is busy
 	CvDuplicateConcurrent                               // two concurrent cancels of the same running job
+	CvDeliveredAtRunEntry                               // the cancel is delivered between the scheduler's launch of a task and the runner's entry: the runner refuses it
 	cvCount
 )
 
 func (v CancelVariant) String() string {
-	return [...]string{"parked-delivered-before-release", "parked-release-races-delivery", "inside-run", "racing-last-exit", "waiting-behind-busy", "waiting-pending-delay", "waiting-expired-delay-behind-busy", "duplicate-concurrent"}[v]
+	return [...]string{"parked-delivered-before-release", "parked-release-races-delivery", "inside-run", "racing-last-exit", "waiting-behind-busy", "waiting-pending-delay", "waiting-expired-delay-behind-busy", "duplicate-concurrent", "delivered-at-run-entry"}[v]
 }
 
 // NumCancelVariants is the number of variants
@@ -80,13 +82,17 @@ func topoOrder(g gen.Graph, r *rand.Rand) []string {
 
 // recRunner wraps the real task runner and records calls under kinds that the generic offline checkers ignore
 type recRunner struct {
-	inner taskctl.Runner
-	log   *core.Log
-	job   string
+	inner  taskctl.Runner
+	log    *core.Log
+	job    string
+	before func(job, taskName string)
 }
 
 func (r *recRunner) SetOnTaskChange(f func(t *task.Task)) { r.inner.SetOnTaskChange(f) }
 func (r *recRunner) Run(t *task.Task) error {
+	if r.before != nil {
+		r.before(r.job, t.Name)
+	}
 	r.log.Add(core.Event{Kind: "real-run-call", Job: r.job, Task: t.Name})
 	err := r.inner.Run(t)
 	res := "ok"
@@ -146,11 +152,21 @@ func RunCancelCase(seed int64, o CancelOpts) *HistResult {
 		return res
 	}
 	defer sys.Close()
+	var beforeRun atomic.Pointer[func(job, taskName string)]
+	sys.Gates.SetBeforeRun(func(job, taskName string) {
+		if f := beforeRun.Load(); f != nil {
+			(*f)(job, taskName)
+		}
+	})
 	if o.Real {
 		sys.MakeRunner = func(j *prunner.PipelineJob) taskctl.Runner {
 			tr, _ := taskctl.NewTaskRunner(out, taskctl.WithEnv(variables.FromMap(j.Env)), taskctl.WithKillTimeout(200*time.Millisecond))
 			tr.Stdout, tr.Stderr = nil, nil
-			return &recRunner{inner: tr, log: sys.Log, job: j.ID.String()}
+			return &recRunner{inner: tr, log: sys.Log, job: j.ID.String(), before: func(job, taskName string) {
+				if f := beforeRun.Load(); f != nil {
+					(*f)(job, taskName)
+				}
+			}}
 		}
 	}
 	q := &seqRun{o: HistOpts{Watchdog: o.Watchdog}, r: r, sys: sys, specs: []gen.PipeSpec{spec}, byID: map[string]*JobRec{}, res: res}
@@ -411,6 +427,44 @@ func RunCancelCase(seed int64, o CancelOpts) *HistResult {
 				}
 				expectCanceled = true
 			}
+		case CvDeliveredAtRunEntry:
+			if b == len(order) {
+				b = len(order) - 1
+			}
+			victim := order[b]
+			var once sync.Once
+			hook := func(job, taskName string) {
+				if job != target || taskName != victim {
+					return
+				}
+				once.Do(func() {
+					// the scheduler has decided to launch this task; the cancel is acknowledged and completely delivered before
+					// the runner gets to look at the task
+					cls := sys.Cancel(0, target)
+					q.journal("cancel J1 at the runner entry of %s -> %s", victim, cls)
+					waitFor("cancel delivered", func() bool { return countKind(core.KCancelExit, target) >= 1 })
+				})
+			}
+			beforeRun.Store(&hook)
+			if !o.Real {
+				for _, n := range order[:b] {
+					// (the victim may be launched together with earlier tasks if the graph allows it: then the cancel is already out)
+					delivered := func() bool { return countKind(core.KCancelExit, target) >= 1 }
+					if !waitFor("task at gate "+n, func() bool { return sys.Gates.AtGate(target, n) || delivered() }) {
+						return res
+					}
+					if delivered() {
+						break
+					}
+					sys.Release(target, n, core.Outcome{Kind: core.OutOK})
+				}
+			}
+			if !waitFor("cancel delivered at run entry", func() bool { return countKind(core.KCancelExit, target) >= 1 }) {
+				return res
+			}
+			doneBefore = b
+			key += fmt.Sprintf(" done=%d", b)
+			expectCanceled = true
 		case CvRacingLastExit:
 			if !o.Real {
 				for i, n := range order {
